@@ -30,7 +30,7 @@ PURE_MODELS = {
 
 class Row:
     """One evaluated path."""
-    __slots__ = ("facts", "atoms", "effects", "outcome", "ret", "store", "trace", "epochs", "kind", "target")
+    __slots__ = ("facts", "atoms", "effects", "outcome", "ret", "store", "trace", "epochs", "kind", "target", "hav")
 
     def __init__(self):
         self.facts = None
@@ -777,6 +777,7 @@ class Evaluator:
         r.store = st.store
         r.trace = st.trace
         r.epochs = st.epochs
+        r.hav = st.hav
         self.rows.append(r)
 
     def _walk(self, st, fn, frame, bb):
@@ -838,6 +839,17 @@ class Evaluator:
                                 return
                             st.atoms.append((ret, ISet.of(1)))
                         ret = post[1]
+                    elif post is not None and post[0] == "assume_false":
+                        if is_const(ret):
+                            if const_val(ret) != 0:
+                                return
+                        else:
+                            if not st.facts.constrain(ret, ISet.of(0)):
+                                return
+                            st.atoms.append((ret, ISet.of(0)))
+                        ret = post[1]
+                    elif post is not None and post[0] == "wrap":
+                        ret = ("agg", post[1], post[2], ("0",), (ret,))
                     self.write(st, dest, ret)
                     if root_of(dest)[0] != "local":
                         st.effects.append(("store", dest, ret, ""))
@@ -991,6 +1003,12 @@ class Evaluator:
                         value = ("agg", "core::option::Option", "None", (), ())
                     conts += finish_value(s2, value)
                 return conts
+        # ---- Option / Result / bool combinators with closure arguments: evaluated as the control flow they stand for
+        comb = self._combinator(callee)
+        if comb is not None:
+            conts = self._eval_combinator(st, comb, args, dest, target, callee, sp, finish_value)
+            if conts is not None:
+                return conts
         # ---- constant ranges executed concretely (opt-in)
         if self.concrete_ranges and args:
             if callee.endswith("::into_iter") and args[0][0] == "agg" and args[0][1].endswith("::Range"):
@@ -1116,6 +1134,173 @@ class Evaluator:
                 payload = ("field", ("field", res, "as Some"), "0")
                 st.facts.constrain(payload, ISet.of(*range(rb[0], rb[1])) if rb[1] - rb[0] <= 64 else ISet._norm([(rb[0], rb[1] - 1)]))
         return finish_value(st, res)
+
+    # ------------------------------------------------------------------ combinators
+    _COMB = {
+        "option": ("map_or", "map_or_else", "map", "and_then", "unwrap_or", "unwrap_or_else", "or_else", "ok_or", "ok_or_else", "filter", "unwrap_or_default", "zip"),
+        "result": ("map_or_else", "map_or", "unwrap_or_else", "unwrap_or", "map", "map_err", "ok"),
+        "bool": ("then", "then_some"),
+    }
+
+    def _combinator(self, callee):
+        if not callee.startswith("core::"):
+            return None
+        meth = callee.rsplit("::", 1)[-1]
+        if "option::Option" in callee and meth in self._COMB["option"]:
+            return ("option", meth)
+        if "result::Result" in callee and meth in self._COMB["result"]:
+            return ("result", meth)
+        if ("<impl bool>" in callee or "core::bool::" in callee) and meth in self._COMB["bool"]:
+            return ("bool", meth)
+        return None
+
+    def _split_variant(self, st, v, kind):
+        """continuations [(state, variant index, payload)] of an Option (None=0, Some=1) / Result (Ok=0, Err=1) value"""
+        names = ("None", "Some") if kind == "option" else ("Ok", "Err")
+        if v[0] == "agg" and v[2] in names:
+            i = names.index(v[2])
+            return [(st, i, v[4][0] if v[4] else None)]
+        d = self.mk_discr(st, v)
+        out = []
+        for val in (0, 1):
+            s2 = st.copy() if val == 0 else st
+            if is_const(d):
+                if const_val(d) != val:
+                    continue
+            else:
+                if not s2.facts.constrain(d, ISet.of(val)):
+                    continue
+                s2.atoms.append((d, ISet.of(val)))
+            pay = None
+            if not (kind == "option" and val == 0):
+                pay = ("field", ("field", v, "as " + names[val]), "0")
+            out.append((s2, val, pay))
+        return out
+
+    def _closure_of(self, st, a):
+        clo = a
+        if clo is not None and clo[0] == "ref":
+            clo = self.read(st, clo[1])
+        cf = self.lookup_fn(clo[1]) if (clo is not None and clo[0] == "closure") else None
+        return clo, cf
+
+    def _eval_combinator(self, st, comb, args, dest, target, callee, sp, finish_value):
+        kind, meth = comb
+        OPT = "core::option::Option"
+        RES = "core::result::Result"
+        if len(st.frames) > self.inline_depth + 4:
+            return None
+
+        def call(s2, a, targs, post=None):
+            clo, cf = self._closure_of(s2, a)
+            if cf is None:
+                # a closure this function merely received (generic parameter): its result is unknown, the branch structure is not
+                s2.seq += 1
+                res = ("call", "<closure argument of %s>" % callee.rsplit("::", 1)[-1], tuple(targs), s2.seq)
+                s2.effects.append(("call", res[1], tuple(targs), sp, s2.seq, (), len(s2.atoms)))
+                for a_ in targs:
+                    self._havoc_arg(s2, a_)
+                if post is not None and post[0] == "wrap":
+                    res = ("agg", post[1], post[2], ("0",), (res,))
+                elif post is not None:
+                    return finish_value(s2, post[1])      # unknown predicate: both outcomes stay possible, nothing is assumed
+                return finish_value(s2, res)
+            return self._enter(s2, cf, clo, targs, dest, target, callee, sp, post=post)
+        none = ("agg", OPT, "None", (), ())
+
+        def some(x):
+            return ("agg", OPT, "Some", ("0",), (x,))
+        # closures that would be needed must be known before any state is forked
+        need = {"map_or": [2], "map_or_else": [1, 2], "map": [1], "and_then": [1], "unwrap_or_else": [1], "or_else": [1], "ok_or_else": [1],
+                "filter": [1], "map_err": [1], "then": [1]}.get(meth, [])
+        if not any(i < len(args) and self._closure_of(st, args[i])[1] is not None for i in need) and need:
+            return None         # no closure of this call is known: leave it opaque
+        conts = []
+        if kind == "bool":
+            b = args[0]
+            for val in (0, 1):
+                s2 = st.copy() if val == 0 else st
+                if is_const(b):
+                    if const_val(b) != val:
+                        continue
+                else:
+                    if not s2.facts.constrain(b, ISet.of(val)):
+                        continue
+                    s2.atoms.append((b, ISet.of(val)))
+                if val == 0:
+                    conts += finish_value(s2, none)
+                elif meth == "then":
+                    conts += call(s2, args[1], [], post=("wrap", OPT, "Some"))
+                else:
+                    conts += finish_value(s2, some(args[1]))
+            return conts
+        recv = args[0]
+        if kind == "option" and meth == "zip":
+            if len(args) != 2:
+                return None
+            for s2, i1, p1 in self._split_variant(st, recv, "option"):
+                if i1 == 0:
+                    conts += finish_value(s2, none)
+                    continue
+                for s3, i2, p2 in self._split_variant(s2, args[1], "option"):
+                    conts += finish_value(s3, none if i2 == 0 else some(("tuple", (p1, p2))))
+            return conts
+        for s2, idx, pay in self._split_variant(st, recv, kind):
+            if kind == "option":
+                if idx == 0:        # None
+                    if meth in ("map_or", "unwrap_or"):
+                        conts += finish_value(s2, args[1])
+                    elif meth in ("map_or_else", "unwrap_or_else", "or_else"):
+                        conts += call(s2, args[1], [])
+                    elif meth in ("map", "and_then", "filter"):
+                        conts += finish_value(s2, none)
+                    elif meth == "ok_or":
+                        conts += finish_value(s2, ("agg", RES, "Err", ("0",), (args[1],)))
+                    elif meth == "ok_or_else":
+                        conts += call(s2, args[1], [], post=("wrap", RES, "Err"))
+                    else:
+                        return None
+                else:               # Some(pay)
+                    if meth == "map_or":
+                        conts += call(s2, args[2], [pay])
+                    elif meth == "map_or_else":
+                        conts += call(s2, args[2], [pay])
+                    elif meth == "map":
+                        conts += call(s2, args[1], [pay], post=("wrap", OPT, "Some"))
+                    elif meth == "and_then":
+                        conts += call(s2, args[1], [pay])
+                    elif meth in ("unwrap_or", "unwrap_or_else"):
+                        conts += finish_value(s2, pay)
+                    elif meth == "or_else":
+                        conts += finish_value(s2, some(pay))
+                    elif meth in ("ok_or", "ok_or_else"):
+                        conts += finish_value(s2, ("agg", RES, "Ok", ("0",), (pay,)))
+                    elif meth == "filter":
+                        s3 = s2.copy()
+                        for sx, post in ((s2, ("assume", some(pay))), (s3, ("assume_false", none))):
+                            holder = ("local", self.frame_counter + 1, 100002)
+                            sx.store[holder] = pay
+                            conts += call(sx, args[1], [("ref", holder, False)], post=post)
+                    else:
+                        return None
+            else:                   # Result: idx 0 = Ok(pay), 1 = Err(pay)
+                if meth == "map_or_else":
+                    conts += call(s2, args[2] if idx == 0 else args[1], [pay])
+                elif meth == "map_or":
+                    conts += (call(s2, args[2], [pay]) if idx == 0 else finish_value(s2, args[1]))
+                elif meth == "unwrap_or_else":
+                    conts += (finish_value(s2, pay) if idx == 0 else call(s2, args[1], [pay]))
+                elif meth == "unwrap_or":
+                    conts += finish_value(s2, pay if idx == 0 else args[1])
+                elif meth == "map":
+                    conts += (call(s2, args[1], [pay], post=("wrap", RES, "Ok")) if idx == 0 else finish_value(s2, ("agg", RES, "Err", ("0",), (pay,))))
+                elif meth == "map_err":
+                    conts += (finish_value(s2, ("agg", RES, "Ok", ("0",), (pay,))) if idx == 0 else call(s2, args[1], [pay], post=("wrap", RES, "Err")))
+                elif meth == "ok":
+                    conts += finish_value(s2, some(pay) if idx == 0 else none)
+                else:
+                    return None
+        return conts
 
     def _const_range_of(self, fn, operand, direct=False):
         """(a, b) if `operand` is `&mut R` (possibly reborrowed / moved) where local R is initialised once by
@@ -1349,6 +1534,21 @@ class Evaluator:
                     return self.mk_bin(st, "Eq", d, ("int", 1 if name in ("is_some", "is_err") else 0), "bool")
                 if all(is_const(a) for a in args) and name.startswith(("saturating", "wrapping")):
                     pass
+                if name in ("wrapping_add", "saturating_add") and len(args) == 2:
+                    # no wrap / saturation can occur on this path: it is the plain sum
+                    import re as _re2
+                    m2 = _re2.search(r"<impl (u\d+|usize)>", tail)
+                    if m2:
+                        hi_ty = ty_range(m2.group(1)).hi()
+                        his = []
+                        for a_ in args:
+                            if is_const(a_):
+                                his.append(const_val(a_))
+                            else:
+                                sa = st.facts.get(a_) if hasattr(st.facts, "get") else None
+                                his.append(sa.hi() if (sa is not None and not sa.is_all() and sa.hi() is not None) else None)
+                        if None not in his and his[0] != float("inf") and his[1] != float("inf") and his[0] + his[1] <= hi_ty:
+                            return self.mk_bin(st, "Add", args[0], args[1], m2.group(1))
                 return ("pure", name, tuple(args))
         import re as _re
         m = _re.match(r"core::num::<impl (u\d+|usize)>::(to_le_bytes|to_be_bytes|from_le_bytes|from_be_bytes)$", tail)
@@ -1416,6 +1616,22 @@ class Evaluator:
 
 
 # ---------------------------------------------------------------------- matching helpers for rules
+def final_epoch(row, pt):
+    """epoch a load of place `pt` would carry at the end of the row's path (number of the last havoc that affects it)"""
+    hav = getattr(row, "hav", None) or []
+    for i in range(len(hav) - 1, -1, -1):
+        ev_pt, locs = hav[i]
+        if affects(pt, ev_pt, locs):
+            return i + 1
+    return 0
+
+
+def final_value(row, pt):
+    """value of place `pt` at the end of the row's path: what the store holds, else the load with the final epoch"""
+    v = row.store.get(pt)
+    return v if v is not None else ("load", pt, final_epoch(row, pt))
+
+
 def term_contains(t, pred):
     if not isinstance(t, tuple):
         return False
